@@ -1319,6 +1319,7 @@ def setup(ctx):
     gen.gen_consts()
     vlib.build_acmed()
     gen.gen_tables()
+    gen.gen_man_vars()
 
 
 def replay(ctx):
